@@ -40,6 +40,8 @@ type C05DSACase struct {
 	Arg      int    `json:"arg"`
 	SPFlag   string `json:"sp_flag"`
 	IdPFlag  string `json:"idp_flag"`
+	// Key: the DSA key pair the provider registered ("" = sp-dsa, L=1024 N=160; also L=2048 with N=224 / N=256)
+	Key string `json:"key,omitempty"`
 }
 
 var c05DSAMuts = []string{"none", "none", "relay-changed", "relay-added", "relay-removed", "message-changed", "sig-bitflip", "sig-swap-rs", "sig-s-plus-q", "sig-s-negated", "sig-r-zero",
@@ -50,6 +52,7 @@ func genC05DSACase(t *rapid.T) C05DSACase {
 		ReqID: "_" + rapid.StringMatching(`[a-f0-9]{8,20}`).Draw(t, "id"), Relay: rapid.SampledFrom([]string{"rs", "a b+c/d=e&f", "ü€", ""}).Draw(t, "relay"), HasRelay: rapid.Bool().Draw(t, "hasrelay"),
 		Alg: rapid.SampledFrom([]string{algDSASHA1, algDSASHA256}).Draw(t, "alg"), Mut: rapid.SampledFrom(c05DSAMuts).Draw(t, "mut"), Arg: rapid.IntRange(0, 4000).Draw(t, "arg"),
 		SPFlag: rapid.SampledFrom([]string{"true", "1", "true", A, "false"}).Draw(t, "spflag"), IdPFlag: rapid.SampledFrom([]string{"", "", "true", "1", "false"}).Draw(t, "idpflag"),
+		Key: rapid.SampledFrom([]string{"", "", "sp-dsa-224", "sp-dsa-256"}).Draw(t, "key"),
 	}
 }
 
@@ -146,12 +149,16 @@ func c05DSARun(c C05DSACase) (vs []*ev.Violation, accepted, genuine, required bo
 	spec := stdSpec()
 	spec.IdP.WantAuthRequestsSigned = c.IdPFlag
 	sp := stdSP(7)
-	sp.KeyNames = []string{"sp-dsa"}
+	keyName := c.Key
+	if keyName == "" {
+		keyName = "sp-dsa"
+	}
+	sp.KeyNames = []string{keyName}
 	sp.AuthnRequestsSigned = c.SPFlag
 	spec.SPs = append(spec.SPs, sp)
 	isTrue := func(s string) bool { return s == "true" || s == "1" }
 	required = isTrue(c.SPFlag) || isTrue(c.IdPFlag)
-	key := world.Key("sp-dsa").DSA
+	key := world.Key(keyName).DSA
 	w := mustBuild(spec)
 	encode := func(id string) string {
 		a := spsim.NewAuthnReq(id, sp.EntityID)
